@@ -31,16 +31,26 @@ class C08(Prop):
     def strategy(self, tier):
         return gen_ir.recipes(self.cfg(tier))
 
+    def fixed_cases(self, tier):
+        return gen_ir.example_cases(tier)
+
     def run(self, case):
         import spydrnet.uniquify as U
 
         res = Result()
         U.MOD_NAME_UID = 0
-        B = gen_ir.build(case)
-        nl = B.netlist
-        pre = model.wf(nl, strict=True)
-        if pre:
-            raise RuntimeError("generator produced ill-formed netlist: %r" % pre[:3])
+        if "example" in case:
+            nl = gen_ir.load_example(case)
+            res.label("bundled-example")
+            if nl is None or nl.top_instance is None or model.wf(nl, strict=True):
+                res.label("example-not-usable")
+                return res
+        else:
+            B = gen_ir.build(case)
+            nl = B.netlist
+            pre = model.wf(nl, strict=True)
+            if pre:
+                raise RuntimeError("generator produced ill-formed netlist: %r" % pre[:3])
         before = model.elab(nl)
         defs_before = {id(D): D for L in nl.libraries for D in L.definitions}
         names_before = {id(D): D.name for D in defs_before.values()}
